@@ -151,7 +151,9 @@ class AnsiDecoder:
                 # Translate in to semi-colon separated codes
                 # Ignore invalid codes, because we want to be lenient
                 codes = [
-                    min(255, int(_code))
+                    # more than three significant digits exceed 255 however long the run is
+                    # (and int() refuses very long digit strings)
+                    255 if len(_code.lstrip("0")) > 3 else min(255, int(_code[-3:]))
                     for _code in sgr.split(";")
                     if _code.isdecimal()
                 ]
